@@ -277,7 +277,7 @@ def main(argv=None):
                     out_vios.setdefault(s, (0, d, e["witness"]))
         # ---- committed regression inputs
         rdir = os.path.join(ROOT, "replays", prop)
-        if os.path.isdir(rdir):
+        if os.path.isdir(rdir) and not os.environ.get("VERIF_NO_REPLAYS"):   # switch for experiments on the generators alone
             for fn in sorted(os.listdir(rdir)):
                 if fn.endswith(".json"):
                     data, vios = replay_file(mod, os.path.join(rdir, fn))
